@@ -207,7 +207,7 @@ def floor_of(ex, x):
     if key in cache:
         return cache[key][0]
     f = z3.Int(uid("floor"))
-    ex.ctx.hyps.append(z3.And(z3.ToReal(f) <= x, x < z3.ToReal(f) + 1))
+    ex.ctx.add_hyp(z3.And(z3.ToReal(f) <= x, x < z3.ToReal(f) + 1), [str(f)])
     cache[key] = (f, x)      # keep x alive so that its id is not reused
     return f
 
@@ -322,6 +322,8 @@ def call_builtin(ex, name, node, st):
         ex.ctx.dropped.append("%s:%d progressbar.progressbar(x) -> x (A-PB)" % (ex.fi.path, node.lineno))
         return args[0]
     if name == "list":
+        if not args:
+            return Val(KList(NONE), [z3.IntVal(0)], py="emptylist")
         if args and isinstance(args[0].kind, KList):
             return args[0]
         if args and isinstance(args[0].kind, KDict):
